@@ -22,7 +22,7 @@ ASSUMPTIONS = ["strict reader mc/rp66.py", "reference model mc/model.py", "a sha
 TEMPLATES = {
     'T1': ['O', 'CH', 'FR'],
     'T2': ['CH', 'FR', 'O'],
-    'T3': ['O', 'ZN', 'PA', 'CH', 'FR'],
+    'T3': ['O', 'ZN', 'PA', 'NF', 'CH', 'FR'],
     'T4': ['CH', 'ZN', 'O5', 'FR'],
     'T5': ['O', 'RZ', 'CH', 'FR', 'ZN'],      # RZ = an add_zone call that is rejected (wrong-type value)
 }
@@ -113,6 +113,10 @@ def lf_spec(c):
             ops.append(S.op_add('zone', f'RZ{i}', 'REJECTED-ZONE', lf=L, expect='raise', description=17, **sn(i, 'zone')))
         elif e == 'ZN':
             ops.append(S.op_add('zone', f'Z{i}', 'ZONE', lf=L, description=f'zone of logical file {i}', **sn(i, 'zone')))
+        elif e == 'NF':
+            ops.append(S.op_add('no_format', f'N{i}', 'NOFORMAT', lf=L, **sn(i, 'no_format')))
+            ops.append({'op': 'nfdata', 'lf': L, 'nf': f'N{i}', 'data': {'$bytes': bytes([0x10 + i] * (3 + i)).hex()}})
+            ops.append({'op': 'nfdata', 'lf': L, 'nf': f'N{i}', 'data': f'text of logical file {i}'})
         elif e == 'PA':
             ops.append(S.op_add('parameter', f'P{i}', 'PARAM', lf=L, zones=[{'$ref': f'Z{i}'}], values=[float(i)],
                                 **sn(i, 'parameter')))
@@ -175,7 +179,7 @@ def run_case(c):
             viol.append(("C18:logical_file_count", f"{len(lfs)} logical files in file, {len(m.lfs)} created | {_brief(c)}"))
         for i, (mlf, lf) in enumerate(zip(m.lfs, lfs)):
             errs = (M.check_header_and_order(m, mlf, lf) + M.check_inventory(m, mlf, lf) + M.check_attrs(m, mlf, lf)
-                    + M.check_identity_and_refs(m, mlf, lf) + M.check_rows(m, mlf, lf))
+                    + M.check_identity_and_refs(m, mlf, lf) + M.check_rows(m, mlf, lf) + M.check_noformat(m, mlf, lf))
             for code, d in errs:
                 viol.append((f"C18:{c['kind']}:{code.split(':')[0]}", f"logical file {i}: {d[:250]} | {_brief(c)}"))
     except R.FormatError as e:
